@@ -85,7 +85,7 @@ Return(o) == out' = o /\ pc' = "done"
 (***************************************************************************)
 (* get_recursively: walk keys[:-1] through dictionaries, then the last key *)
 (***************************************************************************)
-Missing == IF call.dflt THEN Ok(DefaultVal) ELSE Raise("LenaKeyError")
+Missing == IF call.dflt THEN Ok(DefaultOf(call.o)) ELSE Raise("LenaKeyError")
 GWalk == /\ pc = "start" /\ call.op = "get" /\ Len(ptr) + 1 < Len(call.path)
          /\ LET k == call.path[Len(ptr) + 1]  d == Get(ctx, ptr) IN
               IF k \in Keys(d) /\ IsD(d.m[k])
@@ -113,6 +113,14 @@ CLast == /\ pc = "start" /\ call.op = "contains" /\ Len(ptr) + 1 = Len(call.path
               IF IsD(d) THEN Return(Ok(k \in Keys(d)))
               ELSE Return(Ok(d.s = k))
          /\ UNCHANGED <<call, elem, flow0, results, ctx0, ctx2, ctx, ptr, upd>>
+
+\* dictionary key notation: every level is inspected while the keys are collected
+GDNorm == /\ pc = "start" /\ call.op = "getd"
+          /\ IF call.lvl > 0 THEN Return(Raise("LenaValueError"))
+             ELSE IF call.uk = "kd-nonstr"
+               THEN \E r \in GetDOutcomes(call, ctx) : Return(r)
+             ELSE Return(GetRefC(call, ctx))
+          /\ UNCHANGED <<call, elem, flow0, results, ctx0, ctx2, ctx, ptr, upd>>
 
 S2D == /\ pc = "start" /\ call.op = "s2d"
        /\ Return(S2DOutcome(call.path))
@@ -151,7 +159,7 @@ UResolve ==
      ELSE IF RefMode(elem) THEN
         LET p == elem.tpl[1].p IN
           IF Has(ctx, p) THEN upd' = Get(ctx, p) /\ pc' = "walk" /\ out' = out
-          ELSE IF elem.o.def THEN upd' = DefaultVal /\ pc' = "walk" /\ out' = out
+          ELSE IF elem.o.def THEN upd' = DefaultOf(elem.o) /\ pc' = "walk" /\ out' = out
           ELSE IF elem.o.skip THEN Return(Ok(ctx)) /\ upd' = upd
           ELSE Return(Raise("LenaKeyError")) /\ upd' = upd
      ELSE IF AllPresent(ctx, elem.tpl) \/ ~(elem.o.skip \/ elem.o.raise)
@@ -212,17 +220,20 @@ WUpdate == /\ pc = "wupd" /\ call.op = "fuw"
 (***************************************************************************)
 (* The same element is applied to the next value of the flow.              *)
 (***************************************************************************)
-IsElement == call.op \in {"update", "delete", "fuw"}
-NotBuilt == call.op = "update" /\ MakeExc(call) # ""        \* the constructor raised: there is no element
+IsElement == call.op \in {"update", "delete", "fuw", "format"}
+NotBuilt == \/ call.op = "update" /\ MakeExc(call) # ""      \* the constructor raised: there is no element
+            \/ call.op = "format" /\ call.uk # "str"
 Terminal == Done /\ (Len(results) + 1 = Len(flow0) \/ NotBuilt \/ ~IsElement)
 NextValue == /\ Done /\ IsElement /\ ~NotBuilt /\ Len(results) + 1 < Len(flow0)
              /\ results' = Append(results, Res(out, ctx))
              /\ ctx0' = flow0[Len(results) + 2] /\ ctx' = flow0[Len(results) + 2]
-             /\ pc' = CASE call.op = "update" -> "built" [] call.op = "delete" -> "dwalk" [] OTHER -> "start"
+             /\ pc' = CASE call.op = "update" -> "built" [] call.op = "delete" -> "dwalk"
+                          [] call.op = "format" -> "parsed"      \* the formatter made by format_context is reused
+                          [] OTHER -> "start"
              /\ out' = Ok(NoVal) /\ ptr' = <<>> /\ upd' = NoVal
              /\ UNCHANGED <<call, elem, flow0, ctx2>>
 
-Next == \/ NextValue
+Next == \/ NextValue \/ GDNorm
         \/ GWalk \/ GLast \/ CWalk \/ CLast \/ S2D \/ FParse \/ FRender \/ TStr
         \/ UMake \/ UResolve \/ UWalk \/ USet
         \/ DMake \/ DEmpty \/ DWalk \/ DDel
@@ -233,7 +244,8 @@ Spec == Init /\ [][Next]_vars
 (* Operational = reference                                                 *)
 (***************************************************************************)
 Finished(o) == Done /\ call.op = o
-GetIsRef      == Finished("get") => out = GetRef(ctx0, call.path, call.dflt)
+GetIsRef      == /\ Finished("get") => out = GetRefC(call, ctx0)
+                 /\ Finished("getd") => out \in GetDOutcomes(call, ctx0)
 ContainsIsRef == Finished("contains") => out = Ok(ContainsRef(ctx0, call.path))
 FormatIsRef   == Finished("format") => out = FormatOutcome(call, ctx0)
 UpdateIsRef   == Finished("update") => Res(out, ctx) \in UpdateOutcomes(call, ctx0, Rendered)
@@ -275,7 +287,10 @@ UpdateMissing == Finished("update") /\ MakeExc(call) = "" =>
     /\ absent /\ call.o.skip => out = Ok(ctx0) /\ ctx = ctx0
     /\ absent /\ (call.o.raise \/ (RefMode(call) /\ ~call.o.def /\ ~call.o.skip))
          => out = Raise("LenaKeyError") /\ ctx = ctx0
-    /\ absent /\ call.o.def => out.ok /\ Eq(Get(ctx, call.path), DefaultVal)
+    /\ absent /\ call.o.def => /\ out.ok
+                                /\ IF IsD(DefaultOf(call.o)) /\ call.o.rec
+                                     THEN Contained(DefaultOf(call.o), Get(ctx, call.path))
+                                   ELSE Eq(Get(ctx, call.path), DefaultOf(call.o))
     /\ ~absent => out.ok
     /\ ~absent /\ RefMode(call) => upd = Get(ctx0, call.tpl[1].p)
 DeleteExact == Finished("delete") /\ call.path # <<>> =>
@@ -293,6 +308,7 @@ ElementStateless == [][elem' = elem /\ call' = call]_vars
 OutcomesOf(c, d) == CASE c.op = "update" -> UpdateOutcomes(c, d, Rendered)
                       [] c.op = "delete" -> DeleteOutcomes(c, d)
                       [] c.op = "fuw" -> FuwOutcomes(c, d, Rendered)
+                      [] c.op = "format" -> {Res(FormatOutcome(c, d), d)}
 FlowIsFunction == Done /\ IsElement =>
   /\ \A j \in DOMAIN results : results[j] \in OutcomesOf(call, flow0[j])
   /\ Res(out, ctx) \in OutcomesOf(call, flow0[Len(results) + 1])
@@ -301,7 +317,8 @@ FlowIsFunction == Done /\ IsElement =>
   /\ ~(call.op = "delete" /\ call.path = <<>>) =>
         \A j \in DOMAIN results : flow0[j] = flow0[Len(results) + 1] => results[j] = Res(out, ctx)
 \* queries never change the context
-QueriesPure == [][call.op \in {"get", "contains", "s2d", "format", "tostr"} => ctx' = ctx]_vars
+QueriesPure == [][call.op \in {"get", "getd", "contains", "s2d", "format", "tostr"} /\ ~(Done /\ pc' # "done")
+                    => ctx' = ctx]_vars
 
 (***************************************************************************)
 (* Call universes                                                          *)
@@ -311,7 +328,11 @@ PathsE(n) == Seqs(K \cup {""}, 0, n)                     \* with empty component
 TplToks == {Lit("_"), Fld(<<K1>>), Fld(<<K2>>), Fld(<<K1, K1>>), Fld(<<K1, K2>>)}
 Tpls(n) == Seqs(TplToks, 0, n)
 SimpleVals == {L1, Dict([j \in {K2} |-> L1])}
-OptsAll == [value : BOOLEAN, def : BOOLEAN, skip : BOOLEAN, raise : BOOLEAN, rec : BOOLEAN]
+OptsAll == [value : BOOLEAN, def : BOOLEAN, skip : BOOLEAN, raise : BOOLEAN, rec : BOOLEAN, dv : {"obj"}]
+\* the same with a default of another value (only where a default is given)
+DVsQuick == {"none", "zero", "edict"}
+DVsAll == {"none", "zero", "estr", "false", "elist", "edict"}
+OptsDV(dvs) == {o \in [value : BOOLEAN, def : {TRUE}, skip : BOOLEAN, raise : BOOLEAN, rec : BOOLEAN, dv : dvs] : TRUE}
 QueryCalls(np, nt) ==
        {Call("get", p, d, <<>>, "none", Empty, NoOpts) : p \in Paths(np), d \in BOOLEAN}
   \cup {Simple("contains", p) : p \in Paths(np) \ {<<>>}}
@@ -326,12 +347,28 @@ UpdateCalls(paths) ==
   \cup {c \in {Call("update", p, FALSE, t, "str", Empty, o) : p \in paths, t \in UpdTpls, o \in OptsAll} :
           \* (recursively matters only when the update can be a dictionary: simple and context values)
           MakeExc(c) = "" /\ (c.o.rec \/ c.o.value)}
+\* defaults with a value of their own: context values (and get_recursively) with a missing / present key
+DefaultCalls(paths, dvs) ==
+       {c \in {Call("update", p, FALSE, t, "str", Empty, o) : p \in paths,
+                 t \in {<<Fld(<<K1>>)>>, <<Fld(<<K1, K2>>)>>, <<Fld(<<K2>>)>>}, o \in OptsDV(dvs)} : MakeExc(c) = ""}
+  \cup {Call("get", p, TRUE, <<>>, "none", Empty, [NoOpts EXCEPT !.dv = dv]) : p \in paths \cup {<<K2, K1>>}, dv \in dvs}
+\* malformed / unusual dictionary key notations (the context hardly matters)
+KeyDictCalls(paths, dvs) ==
+  {c \in {KeyDictCall(p, d, dv, uk, l) : p \in paths, d \in BOOLEAN, dv \in dvs,
+                                         uk \in {"kd-empty", "kd-str", "kd-nonstr"}, l \in 0..3} :
+     /\ c.lvl <= (IF c.uk = "kd-str" THEN Len(c.path) - 1 ELSE Len(c.path))
+     /\ c.uk = "kd-str" => Len(c.path) >= 2
+     /\ c.dflt \/ c.o.dv = "obj"}
 \* the constructor over the whole option matrix (the context does not matter)
 MakeCalls ==
        {Call("update", p, FALSE, t, "str", Empty, o) :
           p \in {<<>>, <<K1>>}, t \in {<<Fld(<<K1>>)>>, <<Lit("_"), Fld(<<K1>>)>>, <<Lit("_")>>, <<>>},
           o \in OptsAll}
   \cup {Call("update", <<K1>>, FALSE, <<>>, uk, L1, o) : uk \in {"simple", "bad"}, o \in OptsAll}
+  \* a default of every value in every (also malformed) configuration
+  \cup {Call("update", <<K1>>, FALSE, t, uk, L1, o) : t \in {<<Fld(<<K1>>)>>, <<Lit("_")>>}, uk \in {"str", "simple"},
+                                                          o \in OptsDV(DVsAll)}
+  \cup KeyDictCalls(Seqs(K, 1, 3), {"obj", "none"})
   \* str_to_dict / str_to_list do not depend on a context either
   \cup {Simple("s2d", p) : p \in Paths(4)}
 DeleteCalls(paths) == {Simple("delete", p) : p \in paths}
@@ -343,10 +380,14 @@ FuwCalls(paths) ==
 
 KO2 == <<"a", "b">>
 KO3 == <<"a", "b", "c">>
-CallsQuick == QueryCalls(3, 2) \cup UpdateCalls(Seqs(K, 1, 2) \cup {<<K1, "", K2>>, <<K1, K2, K1>>})
+CallsQuick == DefaultCalls({<<K1>>, <<K1, K2>>}, DVsQuick)
+              \cup KeyDictCalls({<<K1>>, <<K1, K2>>, <<K1, K1, K2>>}, {"obj"})
+              \cup QueryCalls(3, 2) \cup UpdateCalls(Seqs(K, 1, 2) \cup {<<K1, "", K2>>, <<K1, K2, K1>>})
               \cup DeleteCalls(PathsE(2) \cup Seqs(K, 3, 3))
               \cup FuwCalls(Seqs(K, 0, 2) \cup {<<K1, K2, K1>>})
-CallsThorough == QueryCalls(4, 3) \cup UpdateCalls(Seqs(K, 1, 3) \cup {<<K1, "", K2>>, <<"", K1>>})
+CallsThorough == DefaultCalls(Seqs(K, 1, 2), DVsAll)
+                 \cup KeyDictCalls(Seqs(K, 1, 3), {"obj", "none"})
+                 \cup QueryCalls(4, 3) \cup UpdateCalls(Seqs(K, 1, 3) \cup {<<K1, "", K2>>, <<"", K1>>})
                  \cup DeleteCalls(PathsE(3) \cup Seqs(K, 4, 4))
                  \cup FuwCalls(Seqs(K, 0, 3) \cup {<<K1, "", K2>>})
 
@@ -369,8 +410,10 @@ FlowsAll3 == Ctxs \X Ctxs \X Ctxs
 CallsFlowQuick == UpdateCalls({<<K1>>, <<K1, K2>>, <<K2, K1>>})
                   \cup DeleteCalls(PathsE(2) \cup {<<K1, K1, K2>>, <<K1, K2, K1>>})
                   \cup FuwCalls({<<>>, <<K1>>, <<K1, K2>>})
+                  \cup {Call("format", <<>>, FALSE, t, "str", Empty, NoOpts) : t \in Tpls(2)}
 CallsFlowThorough == UpdateCalls(Seqs(K, 1, 2) \cup {<<K1, K2, K1>>})
                      \cup DeleteCalls(PathsE(2) \cup Seqs(K, 3, 3)) \cup FuwCalls(Seqs(K, 0, 2))
+                     \cup {Call("format", <<>>, FALSE, t, "str", Empty, NoOpts) : t \in Tpls(3)}
 
 (***************************************************************************)
 (* Export (S2C): the call, the context, the outcome; rend = the tokens of  *)
